@@ -46,6 +46,7 @@ fn main() {
         "grammar" => scen::grammar::main(&args),
         "urgency" => scen::urgency::main(&args),
         "fault" => scen::fault::main(&args),
+        "sched" => scen::sched::main(&args),
         _ => {
             eprintln!("usage: tcs-harness <hist|…> --out FILE [--seed N] …");
             2
